@@ -235,14 +235,14 @@ func Run(r *ev.Run) {
 		if _, err := fmt.Sscanf(w, "%d/%d", &i, &n); err != nil || n <= 0 {
 			harnessError("bad VERIF_WORKER %q", w)
 		}
-		runWorker(r, src, list, i, n)
+		runWorker(r, src, list, i, n, vs)
 		if err := r.WritePartial(os.Getenv("VERIF_PARTIAL")); err != nil {
 			harnessError("worker %d: %v", i, err)
 		}
 		os.Exit(0)
 	}
 
-	r.Rule = "every row of the operator-command table (every command/sub-command agent.TaskPrepare supports and the Demon has a handler for) x value assignments {all defaults; each parameter slot, and the task id, alone over its whole domain} (quick) or {the full product of all slot domains and the task ids for rows of <= 50000 combinations (every row but fs/dir); for fs/dir every pair and every triple of slots over their domains} (thorough) x 3 session keys (all-zero, two non-zero); plus batches: every ordered pair of rows with different argument-kind tuples (quick: one representative row per tuple; thorough: all rows, and ordered triples of the representatives) queued together and fetched by one check-in.  Each case is a real DispatchEvent(Session.Input) followed by a real COMMAND_GET_JOB request through the HTTP listener's engine; the response is read by a transcription of the Demon's dispatcher, parser and handlers and compared with the expectation written next to the row"
+	r.Rule = "every row of the operator-command table (every command/sub-command agent.TaskPrepare supports and the Demon has a handler for) x value assignments {all defaults; each parameter slot, and the task id, alone over its whole domain} (quick) or {the full product of all slot domains and the task ids for rows of <= 50000 combinations (every row but fs/dir); for fs/dir every pair and every triple of slots over their domains} (thorough) x 3 session keys (all-zero, two non-zero); plus batches: every ordered pair of rows with different argument-kind tuples (quick: one representative row per tuple; thorough: all rows, and ordered triples of the representatives) queued together and fetched by one check-in; part R: every row x every numeric slot spelt as no number - if the operator is told the task could not be created, nothing is queued and no request id becomes outstanding.  Each case is a real DispatchEvent(Session.Input) followed by a real COMMAND_GET_JOB request through the HTTP listener's engine; the response is read by a transcription of the Demon's dispatcher, parser and handlers and compared with the expectation written next to the row"
 	r.Bounds["table_rows"] = len(vs)
 	r.Bounds["single_command_cases"] = nSingles
 	r.Bounds["batch_cases"] = nBatches
@@ -306,7 +306,7 @@ type worker struct {
 
 func agentID(k byte) uint32 { return 0x0c020000 + uint32(k) }
 
-func runWorker(r *ev.Run, src *demonSource, list []Experiment, i, n int) {
+func runWorker(r *ev.Run, src *demonSource, list []Experiment, i, n int, vs []*Variant) {
 	ts := seam.New(seam.Options{})
 	defer ts.Close()
 	// TaskPrepare reads the reflective loader from <cwd>/payloads/DllLdr.x64.bin
@@ -326,6 +326,9 @@ func runWorker(r *ev.Run, src *demonSource, list []Experiment, i, n int) {
 	limit := 60 * time.Second
 	if r.Thorough() {
 		limit = 17 * time.Minute
+	}
+	if i == n-1 {
+		w.refused(vs) // part R, in the last worker (the shortest block is usually there)
 	}
 	// contiguous blocks: merged in worker order, the first violation kept per signature is
 	// the one with the lowest experiment index whatever the number of workers
